@@ -37,7 +37,9 @@ def try_cvc5(solver, timeout_s=8):
 
 
 def conjuncts(g):
-    from z3 import is_and
+    from z3 import is_and, is_implies, Implies
+    if is_implies(g) and is_and(g.arg(1)):
+        return [Implies(g.arg(0), c) for c in conjuncts(g.arg(1))]
     if is_and(g):
         out = []
         for c in g.children(): out += conjuncts(c)
